@@ -1,10 +1,62 @@
-(* C04, the MODIFY COLUMN re-declaration in its strongest form: for every ModifyColumn{Type,Nullable,Default,Comment}
-   on a column outside the auto-increment class, outside the re-quoting corner and (for the three that write no
-   COMMENT clause) without a comment, the one MODIFY COLUMN emitted restates ALL attributes of the column exactly as
-   the evolving schema holds them after the action: type text, NOT NULL, DEFAULT text, COMMENT, AUTO_INCREMENT and
-   inline PRIMARY KEY at once.  The comment condition cannot be dropped: [modify_drops_comment]. *)
+(* C04, the MODIFY COLUMN re-declaration in its strongest form (after fix N1): for every ModifyColumn{Type,Nullable,
+   Default,Comment} on an existing column — the auto-increment key column and commented columns included — the one
+   MODIFY COLUMN emitted restates ALL attributes of the column exactly as the evolving schema holds them after the
+   action: type text, NOT NULL, DEFAULT text, COMMENT (as MySQL reads the emitted literal), AUTO_INCREMENT and inline
+   PRIMARY KEY at once.  Hypotheses left: the kept default is not re-quoted (modify_default_ok), and the new comment of
+   a ModifyColumnComment contains no backslash (modify_column_comment.rs escapes quotes only).
+   History: before N1 the theorem needed "not the auto-increment column" and "no comment unless ModifyColumnComment";
+   modify_drops_comment proved that every ModifyColumnType / Nullable / Default on a commented column emitted a MODIFY
+   without COMMENT, and modify_restates_all_needs_comment_condition refuted the statement without that condition by a
+   computed witness (finding C04-comment-lost-on-modify; witness corpus/mysql/comment_lost_on_modify.json, now a
+   control that holds). *)
 From VV.MYSQL Require Import Spec SpecKeys SpecCreate SpecFk ModifyP.
 From Coq Require Import Lia.
+
+(* ---------- MySQL reads back what was escaped ---------- *)
+Lemma ascii_of_code : forall a k, N.eqb (N_of_ascii a) k = true -> a = ascii_of_N k.
+Proof. intros a k H. apply N.eqb_eq in H. rewrite <- H. symmetry. apply ascii_N_embedding. Qed.
+
+(* sea-query's escape_string (ColumnSpec::Comment): for every comment *)
+Theorem unescape_escape : forall m, mysql_unescape (mysql_escape m) = m.
+Proof.
+  induction m as [|a r IH]; [reflexivity|].
+  cbn [mysql_escape].
+  destruct (N.eqb (N_of_ascii a) 92) eqn:E1; [rewrite (ascii_of_code a 92 E1); cbn; rewrite IH; reflexivity|].
+  destruct (N.eqb (N_of_ascii a) 34) eqn:E2; [rewrite (ascii_of_code a 34 E2); cbn; rewrite IH; reflexivity|].
+  destruct (N.eqb (N_of_ascii a) 39) eqn:E3; [rewrite (ascii_of_code a 39 E3); cbn; rewrite IH; reflexivity|].
+  destruct (N.eqb (N_of_ascii a) 0) eqn:E4; [rewrite (ascii_of_code a 0 E4); cbn; rewrite IH; reflexivity|].
+  destruct (N.eqb (N_of_ascii a) 8) eqn:E5; [rewrite (ascii_of_code a 8 E5); cbn; rewrite IH; reflexivity|].
+  destruct (N.eqb (N_of_ascii a) 9) eqn:E6; [rewrite (ascii_of_code a 9 E6); cbn; rewrite IH; reflexivity|].
+  destruct (N.eqb (N_of_ascii a) 26) eqn:E7; [rewrite (ascii_of_code a 26 E7); cbn; rewrite IH; reflexivity|].
+  destruct (N.eqb (N_of_ascii a) 10) eqn:E8; [rewrite (ascii_of_code a 10 E8); cbn; rewrite IH; reflexivity|].
+  destruct (N.eqb (N_of_ascii a) 13) eqn:E9; [rewrite (ascii_of_code a 13 E9); cbn; rewrite IH; reflexivity|].
+  cbn [mysql_unescape]. destruct (mysql_escape r) as [|b r'] eqn:Er.
+  - cbn in IH. subst r. reflexivity.
+  - rewrite E1, E3. cbn [andb]. rewrite IH. reflexivity.
+Qed.
+
+(* the hand-made escaping of modify_column_comment.rs: for comments without a backslash *)
+Theorem unescape_hand_escape : forall m, no_backslash m = true -> mysql_unescape (hand_escape m) = m.
+Proof.
+  induction m as [|a r IH]; intro H; [reflexivity|].
+  cbn [no_backslash] in H. apply andb_true_iff in H. destruct H as [Ha Hr]. apply Bool.negb_true_iff in Ha.
+  specialize (IH Hr). cbn [hand_escape].
+  destruct (N.eqb (N_of_ascii a) 39) eqn:E3.
+  - rewrite (ascii_of_code a 39 E3). cbn. rewrite IH. reflexivity.
+  - cbn [mysql_unescape]. destruct (hand_escape r) as [|b r'] eqn:Er.
+    + cbn in IH. subst r. reflexivity.
+    + rewrite Ha, E3. cbn [andb]. rewrite IH. reflexivity.
+Qed.
+
+Lemma comment_body_read : forall a col,
+  hand_comment_ok a = true ->
+  option_map mysql_unescape (comment_body a (after_col a col)) = c_comment (after_col a col).
+Proof.
+  intros a col H. destruct a; cbn [comment_body];
+    try (destruct (c_comment (after_col _ col)) as [m|]; [cbn [option_map]; rewrite unescape_escape; reflexivity|reflexivity]).
+  cbn [after_col set_comment c_comment]. cbn [hand_comment_ok] in H.
+  destruct new_comment as [m|]; [|reflexivity]. cbn [option_map]. rewrite (unescape_hand_escape m H). reflexivity.
+Qed.
 
 (* a column update leaves the table constraints alone *)
 Lemma update_column_constraints : forall t c f s s',
@@ -37,20 +89,12 @@ Qed.
 Lemma after_col_name : forall a col, c_name (after_col a col) = c_name col.
 Proof. intros a col. destruct a; reflexivity. Qed.
 
-Lemma after_col_comment : forall a col,
-  modify_comment_ok a col = true -> c_comment (after_col a col) = modify_comment a.
-Proof.
-  intros a col H. destruct a; cbn [modify_comment_ok] in H; cbn [after_col modify_comment];
-    try (destruct (c_comment col) eqn:E; [discriminate|]; try exact E); try reflexivity;
-    cbn [set_type set_nullable set_default c_comment]; exact E.
-Qed.
-
 (* ---------- the statement of C04_modify_restates_all ---------- *)
 Theorem modify_restates_all : forall s P a t c col s',
   modify_target a = Some (t, c) ->
   lookup_column s t c = Some col ->
   apply_action s a = Ok s' ->
-  modify_all_hyp s a t c col = true ->
+  modify_all_hyp a col = true ->
   exists pre d col',
     gen s P a = Ok (pre ++ [SModifyColumn t d]) /\
     forallb is_update pre = true /\
@@ -59,16 +103,15 @@ Theorem modify_restates_all : forall s P a t c col s',
     restated_all d = declared_all s' t col'.
 Proof.
   intros s P a t c col s' Ht Hl Ha Hh. unfold modify_all_hyp in Hh.
-  apply andb_true_iff in Hh. destruct Hh as [Hh Hcm]. apply andb_true_iff in Hh. destruct Hh as [Hau Hd].
-  apply Bool.negb_true_iff in Hau.
+  apply andb_true_iff in Hh. destruct Hh as [Hd Hcm].
   destruct (modify_preserves s P a t c col s' Ht Hl Ha Hd) as [pre [d [col' [G [U [L' [N [R [A [K C]]]]]]]]]].
   exists pre, d, col'. repeat (split; [assumption|]).
   pose proof (apply_modify_lookup s a t c col s' Ht Hl Ha) as L2. rewrite L' in L2. inversion L2; subst col'.
   destruct (lookup_found s t c col Hl) as [td [_ Fc]].
   pose proof (find_column_name c td col Fc) as Hname.
   unfold restated, declared in R. unfold restated_all, declared_all.
-  rewrite after_col_name, Hname, (modify_keeps_auto s a t c s' Ht Ha), Hau, A, K, C, (after_col_comment a col Hcm).
-  cbn [andb]. inversion R. reflexivity.
+  rewrite after_col_name, Hname, (modify_keeps_auto s a t c s' Ht Ha), A, K, C, (comment_body_read a col Hcm).
+  inversion R. reflexivity.
 Qed.
 
 (* lifted over plans: action i of the plan is generated from the evolving schema before it *)
@@ -78,7 +121,7 @@ Theorem modify_restates_all_plan : forall s acts L i a t c col s',
   modify_target a = Some (t, c) ->
   lookup_column (schema_at s acts i) t c = Some col ->
   apply_action (schema_at s acts i) a = Ok s' ->
-  modify_all_hyp (schema_at s acts i) a t c col = true ->
+  modify_all_hyp a col = true ->
   exists pre d col',
     nth_error L i = Some (pre ++ [SModifyColumn t d]) /\
     forallb is_update pre = true /\
@@ -106,7 +149,7 @@ Theorem modify_restates_all_history : forall (H : list plan) k p sb L i a t c co
   modify_target a = Some (t, c) ->
   lookup_column s_i t c = Some col ->
   apply_action s_i a = Ok s' ->
-  modify_all_hyp s_i a t c col = true ->
+  modify_all_hyp a col = true ->
   exists pre d col',
     nth_error L i = Some (pre ++ [SModifyColumn t d]) /\
     forallb is_update pre = true /\
@@ -116,7 +159,7 @@ Theorem modify_restates_all_history : forall (H : list plan) k p sb L i a t c co
 Proof.
   intros H k p sb L i a t c col s_i s' _ _ Hg Hn Hs Ht Hl Ha Hh.
   pose proof (apply_all_step _ _ _ Hs) as E. fold (schema_at sb (p_actions p) i) in E.
-  rewrite <- E in Hl, Ha, Hh.
+  rewrite <- E in Hl, Ha.
   destruct (modify_restates_all_plan sb (p_actions p) L i a t c col s' Hg Hn Ht Hl Ha Hh)
     as [pre [d [col' [N [U [L' [Nm R]]]]]]].
   assert (E2 : schema_at sb (p_actions p) (S i) = s').
@@ -124,55 +167,3 @@ Proof.
   rewrite E2 in L', R. exists pre, d, col'. auto.
 Qed.
 
-(* ---------- the comment condition is necessary: a MODIFY for type / nullability / default never carries a
-   COMMENT, whatever the column holds ---------- *)
-Theorem modify_drops_comment : forall s P a t c col s' m,
-  modify_target a = Some (t, c) ->
-  lookup_column s t c = Some col ->
-  apply_action s a = Ok s' ->
-  modify_default_ok a col = true ->
-  p_comment_lost s a = true ->
-  c_comment col = Some m ->
-  exists pre d col',
-    gen s P a = Ok (pre ++ [SModifyColumn t d]) /\
-    lookup_column s' t c = Some col' /\
-    c_comment col' = Some m /\ cd_comment d = None.
-Proof.
-  intros s P a t c col s' m Ht Hl Ha Hd Hp Hc.
-  destruct (modify_preserves s P a t c col s' Ht Hl Ha Hd) as [pre [d [col' [G [U [L' [N [R [A [K C]]]]]]]]]].
-  exists pre, d, col'. split; [exact G|]. split; [exact L'|].
-  pose proof (apply_modify_lookup s a t c col s' Ht Hl Ha) as L2. rewrite L' in L2. inversion L2; subst col'.
-  destruct a; cbn [modify_target] in Ht; try discriminate; cbn [p_comment_lost] in Hp; try discriminate;
-    cbn [after_col set_type set_nullable set_default c_comment modify_comment] in *; auto.
-Qed.
-
-(* the all-attributes statement WITHOUT the comment condition is false: a concrete evolving schema *)
-Definition w_cm_base : schema :=
-  [mkTable "t" None
-     [mkCol "id" (TSimple Integer) false None None None None None None;
-      mkCol "v" (TSimple Integer) true None (Some "note") None None None None] []].
-Definition w_cm_action : action := ModifyColumnDefault "t" "v" (Some "0").
-
-Definition restates_all_no_comment_condition : Prop :=
-  forall s P a t c col s',
-    modify_target a = Some (t, c) -> lookup_column s t c = Some col -> apply_action s a = Ok s' ->
-    is_auto_col s t c = false -> modify_default_ok a col = true ->
-    exists pre d col', gen s P a = Ok (pre ++ [SModifyColumn t d]) /\ lookup_column s' t c = Some col' /\
-                       restated_all d = declared_all s' t col'.
-
-Theorem modify_restates_all_needs_comment_condition : ~ restates_all_no_comment_condition.
-Proof.
-  intro H.
-  destruct (H w_cm_base [] w_cm_action "t" "v"
-              (mkCol "v" (TSimple Integer) true None (Some "note") None None None None)
-              (step w_cm_base w_cm_action) eq_refl eq_refl eq_refl eq_refl eq_refl)
-    as [pre [d [col' [G [L R]]]]].
-  vm_compute in L. inversion L; subst col'. clear L.
-  assert (Gv : gen w_cm_base [] w_cm_action
-               = Ok [SModifyColumn "t" (mkColDef "v" "int" false (Some "0") false false None)]) by reflexivity.
-  rewrite Gv in G. clear Gv. inversion G as [G1]. clear G. symmetry in G1.
-  assert (Hlast : forall (A : Type) (p : list A) x y, p ++ [x] = [y] -> x = y).
-  { intros A p x y E. destruct p as [|z p]; cbn in E; [inversion E; reflexivity|].
-    inversion E as [[E1 E2]]. destruct p; discriminate. }
-  apply Hlast in G1. inversion G1; subst d. vm_compute in R. discriminate.
-Qed.
